@@ -14,7 +14,7 @@ RULE = ('cross product flags subsets of {-,+,space,0} (d,i) / {-,#,0} (o,x,X, no
         'must equal the C library\'s snprintf("%l..") in the same process byte for byte and in return value; values beyond long: the same layout '
         'model (validated against libc on the fitting values of the same run) applied to Python digits; %Q (den only when needed, # on both parts), '
         '%N (negative size = negative), %M vs %l; %F e/f/g for values whose decimal expansion is exact within the precision, compared with libc on '
-        'the equal double, and %Ff/%Fe of 1..12-limb integer parts with dyadic fractions against the exact decimal expansion (precision >= digits needed); mixed standard conversions; snprintf with every size 0..len+1 (fenced buffer); asprintf (block strlen+1 by the '
+        'the equal double; asprintf/vasprintf at every output length 1..1300 (block exactly length+1 by the recorder); %Ff/%Fe of 1..12-limb integer parts with dyadic fractions against the exact decimal expansion (precision >= digits needed); mixed standard conversions; snprintf with every size 0..len+1 (fenced buffer); asprintf (block strlen+1 by the '
         'recorder), sprintf, v* forms, obstack_printf; sscanf/fscanf read-back of everything printed, %Zi base detection, widths, %*, literals, %n, '
         'mismatch and EOF, mixed with standard conversions compared with libc sscanf. MPIR\'s documented deviations (signed o/x/X with +/space, empty '
         'precision, # with precision 0 on zero) are outside the C comparison. distinct = (conversion, flags, width class, precision class, value class)')
@@ -79,6 +79,11 @@ def specs(rng, tier, wid, nw, env):
             for j in range(24 if q else 300):
                 k += 1
                 if k % nw == wid: yield ('bigfloat', limbs, conv, rng.getrandbits(48))
+    # gmp_asprintf / gmp_vasprintf at every output length 1..1300 (the working buffer starts at 256 bytes and doubles: the final block must be
+    # exactly length+1 whatever slack is left, A47) x format shapes with and without plain C conversions
+    for L0 in range(1, 1301, 20):
+        k += 1
+        if k % nw == wid: yield ('aslen', L0, min(L0 + 19, 1300), rng.getrandbits(48))
     N = 12000 if q else 200000
     for i in range(N):
         c = rng.random()
@@ -140,6 +145,25 @@ def build(spec, env):
                 if size > 0 and got != want: out.append(('gmp_%s:wrong-truncated-content' % fn, 'fmt=%r size=%d got=%r want=%r' % (fmt, size, got, want)))
             return out
         return Case(cmds, check, len(body) + 3, ('snsize', fmt, fn, min(len(body), 40)))
+    if kind == 'aslen':
+        _, L0, L1, _s = spec
+        cmds = []; exp = []
+        for L in range(L0, L1 + 1):
+            z = 10 ** (L - 1) + r.randrange(10 ** (L - 1)) if L > 1 else r.randint(1, 9)
+            fn = r.choice(['asprintf', 'vasprintf'])
+            cmds += ['z Z1 %s' % hx(z), 'pf %s - %s Z1' % (fn, hexs('%Zd'))]; exp.append((len(cmds) - 1, str(z), '%Zd'))
+            if L > 2:
+                cmds.append('pf %s - %s %s Z1' % (fn, hexs('%s|%Zd'), hexs('ab'))); exp.append((len(cmds) - 1, 'ab|' + str(z)[:L - 3] if False else 'ab|' + str(z), '%s|%Zd'))
+            cmds += ['z Z2 %s' % hx(-255), 'pf %s - %s #%d Z2' % (fn, hexs('%*Zx'), L)]; exp.append((len(cmds) - 1, '-ff'.rjust(L), '%*Zx'))
+            cmds.append('pf %s - %s #%d #7' % (fn, hexs('%*d'), L)); exp.append((len(cmds) - 1, '7'.rjust(L), '%*d'))
+            cmds.append('pf %s - %s #%d #7 Z2' % (fn, hexs('%-*d%Zd'), L)); exp.append((len(cmds) - 1, '7'.ljust(L) + '-255', '%-*d%Zd'))
+        def check(rep, exp=exp):
+            out = []
+            for idx, want, fm in exp:
+                a, _ = split_reply(rep[idx]); got = unhexs(a[1]).decode('latin-1') if a[1] != '-' else ''
+                if got != want or int(a[0]) != len(want): out.append(('gmp_asprintf:wrong', 'fmt=%r length=%d ret=%s got=%r' % (fm, len(want), a[0], got[:60])))
+            return out[:4]
+        return Case(cmds, check, len(exp), ('aslen', L0))
     if kind == 'qnm':
         what = r.choice(['Q', 'Q', 'N', 'M'])
         conv = r.choice('dxXo'); fl = r.choice(['', '#', '-', '0', '+']) if what != 'M' else r.choice(['', '-', '0', '#'])
